@@ -206,7 +206,9 @@ func HarnessC04() {
 	verifAssert(err == nil, "program must compile again")
 	of2, okf2 := c04Exec(fresh2, d2)
 	verifAssert(okf2 == ok2 && of2 == o2, "an execution after an earlier one (other context) must render like a freshly compiled template on the same context")
-	// the same through ExecuteWriter (its buffering must not carry anything over from earlier runs)
+	// the same through ExecuteWriter (its buffering must not carry anything over from earlier runs,
+	// in particular not from an earlier ExecuteWriter that failed half way)
+	tpl.ExecuteWriter(d2.ctx(), &c14Writer{})
 	w := &c14Writer{}
 	e4 := tpl.ExecuteWriter(d1.ctx(), w)
 	verifAssert((e4 == nil) == ok1, "ExecuteWriter after earlier executions: error-ness differs")
